@@ -61,7 +61,7 @@ func propC18(c *Ctx) {
 	ruleLoopStutter(c, rls, fns, 8)
 	rdr := c.Rule("decode-reentrant", "the decoding functions keep no state in package-level variables: none is assigned, and package-level slices and maps are only read", 1)
 	ruleDecodeReentrant(c, rdr, fns)
-	rdo := c.Rule("decoded-opaque", "no method is invoked on an object returned by DecodeObject on the decode path: it is asserted to the expected type, stored or returned (a gob container can hold nil elements that String / Equal / Copy dereference)", 8)
+	rdo := c.Rule("decoded-opaque", "no method is invoked on an object returned by DecodeObject on the decode path: it is asserted to the expected type, stored or returned (a gob container can hold nil elements that String / Equal / Copy dereference)", 3)
 	ruleDecodedOpaque(c, rdo, fns)
 }
 
